@@ -36,3 +36,195 @@ package sbom
 //@   props C11, C12
 //@   assigns \nothing
 //@   owns
+
+//@ func NodeList.Copy
+//@   props C11, C12
+//@   assigns \nothing
+//@   owns
+
+//@ func copyEdgeList
+//@   props C11, C12
+//@   inline
+//@   assigns \nothing
+//@   owns
+
+//@ func copyNodeSlice
+//@   props C11, C12
+//@   inline
+//@   assigns \nothing
+//@   owns
+
+//@ func NodeList.Union
+//@   props C11, C12
+//@   requires nl2 != nil
+//@   assigns \nothing
+//@   owns
+
+//@ func NodeList.Intersect
+//@   props C11, C12
+//@   requires nl2 != nil
+//@   assigns \nothing
+//@   owns
+
+// ---- comparing, hashing, flattening ----
+
+//@ func Node.Equal
+//@   props C11
+//@   assigns \nothing
+
+//@ func Node.flatString
+//@   props C11
+//@   assigns \nothing
+
+//@ func Node.Checksum
+//@   props C11
+//@   assigns \nothing
+
+//@ func flatStringMap
+//@   props C11
+//@   assigns \nothing
+
+//@ func flatStringStrSlice
+//@   props C11
+//@   assigns \nothing
+
+//@ func Edge.Equal
+//@   props C11
+//@   assigns \nothing
+
+//@ func Edge.flatString
+//@   props C11
+//@   assigns \nothing
+
+//@ func Edge.PointsTo
+//@   props C11
+//@   inline
+//@   assigns \nothing
+
+//@ func Person.flatString
+//@   props C11
+//@   assigns \nothing
+
+//@ func Person.ToSPDX2ClientString
+//@   props C11
+//@   inline
+//@   assigns \nothing
+
+//@ func Person.ToSPDX2ClientOrg
+//@   props C11
+//@   inline
+//@   assigns \nothing
+
+//@ func ExternalReference.flatString
+//@   props C11
+//@   assigns \nothing
+
+//@ func NodeList.Equal
+//@   props C11
+//@   assigns \nothing
+
+// ---- diffing ----
+
+//@ func Node.Diff
+//@   props C11
+//@   requires n2 != nil
+//@   assigns \nothing
+
+// ---- look-ups ----
+
+//@ func Node.Purl
+//@   props C11
+//@   inline
+//@   assigns \nothing
+
+//@ func Node.HashesMatch
+//@   props C11
+//@   inline
+//@   assigns \nothing
+
+//@ func NodeList.GetNodesByName
+//@   props C11
+//@   inline
+//@   assigns \nothing
+
+//@ func NodeList.GetNodeByID
+//@   props C11
+//@   inline
+//@   assigns \nothing
+
+//@ func NodeList.GetNodesByIdentifier
+//@   props C11
+//@   inline
+//@   assigns \nothing
+
+//@ func NodeList.GetRootNodes
+//@   props C11
+//@   inline
+//@   assigns \nothing
+
+//@ func Document.GetRootNodes
+//@   props C11
+//@   requires d.NodeList != nil
+//@   assigns \nothing
+
+//@ func NodeList.GetMatchingNode
+//@   props C11
+//@   requires node != nil
+//@   assigns \nothing
+
+//@ func NodeList.GetEdgeByType
+//@   props C11
+//@   inline
+//@   assigns \nothing
+
+//@ func NodeList.GetNodesByPurlType
+//@   props C11
+//@   assigns \nothing
+
+//@ func NodeList.indexNodes
+//@   props C11
+//@   inline
+//@   assigns \nothing
+
+//@ func NodeList.indexEdges
+//@   props C11
+//@   inline
+//@   assigns \nothing
+
+//@ func NodeList.indexRootElements
+//@   props C11
+//@   inline
+//@   assigns \nothing
+
+//@ func NodeList.indexNodesByHash
+//@   props C11
+//@   inline
+//@   assigns \nothing
+
+//@ func NodeList.indexNodesByPurl
+//@   props C11
+//@   inline
+//@   assigns \nothing
+
+// ---- traversal ----
+
+//@ func NodeList.NodeGraph
+//@   props C11
+//@   assigns \nothing
+
+//@ func NodeList.NodeSiblings
+//@   props C11
+//@   assigns \nothing
+
+//@ func NodeList.NodeDescendants
+//@   props C11
+//@   assigns \nothing
+
+//@ func NodeList.indexConnectedNodes
+//@   props C11
+//@   assigns \nothing
+
+//@ func NodeList.connectedIndexRecursion
+//@   props C11
+//@   requires boundaries != nil && connectedNodes != nil
+//@   assigns connectedNodes.*, (connectedNodes.*)[*]
